@@ -107,9 +107,7 @@ type tagAnalysis struct {
 	valueP        *ssa.Parameter
 	domain        map[string]bool
 	stateNames    []string
-	writeOp       func(cm *ssa.CallCommon) (operand ssa.Value, raw bool, ok bool)
-	wrapperWrite  string
-	onWrite       func(t *tagTuple, v ssa.Value, raw bool, pos token.Pos)
+	onWrite       func(t *tagTuple, parts []ssa.Value, whole ssa.Value, raw bool, pos token.Pos)
 	onRecurse     func(t *tagTuple, pos token.Pos)
 	finalOK       func(state int) bool
 	feasible      func(t tagTuple) bool // optional: relational domain constraint on a path state
@@ -219,7 +217,6 @@ func (a *tagAnalysis) rootOf(t tagTuple, v ssa.Value) ssa.Value {
 	}
 	return v
 }
-
 
 // normT: byte is an alias of uint8 — one name for the one type.
 func normT(n string) string {
@@ -479,41 +476,6 @@ func (a *tagAnalysis) opParts(t tagTuple, v ssa.Value) []ssa.Value {
 	return out
 }
 
-// operandPhis: the string phis that (through concatenation and other phis) feed an operand of a buffer write.
-func (a *tagAnalysis) operandPhis() map[*ssa.Phi]bool {
-	out := map[*ssa.Phi]bool{}
-	var rec func(v ssa.Value)
-	rec = func(v ssa.Value) {
-		switch x := v.(type) {
-		case *ssa.BinOp:
-			if x.Op == token.ADD {
-				rec(x.X)
-				rec(x.Y)
-			}
-		case *ssa.Phi:
-			if out[x] || !isStringType(x.Type()) {
-				return
-			}
-			out[x] = true
-			for _, e := range x.Edges {
-				rec(e)
-			}
-		}
-	}
-	eachInstr(a.fn, func(b *ssa.BasicBlock, in ssa.Instruction) {
-		if ci, ok := in.(ssa.CallInstruction); ok {
-			if op, _, ok := a.writeOp(ci.Common()); ok {
-				rec(op)
-			} else if bi := bufArgIndex(ci.Common(), a.buf); bi >= 0 {
-				if ai := writeWrapperArg(staticCallee(ci.Common()), bi, a.wrapperWrite); ai >= 0 {
-					rec(ci.Common().Args[ai])
-				}
-			}
-		}
-	})
-	return out
-}
-
 // concatParts flattens a left-nested string concatenation.
 func concatParts(v ssa.Value) []ssa.Value {
 	if bo, ok := v.(*ssa.BinOp); ok && bo.Op == token.ADD {
@@ -683,7 +645,11 @@ func (a *tagAnalysis) shape(ev string, parts []ssa.Value, v ssa.Value, pos token
 		}
 	case "attr":
 		a.shapeSites[pos] = true
-		for _, form := range stringForms(v, 6) {
+		forms := [][]ssa.Value{parts}
+		if v != nil {
+			forms = stringForms(v, 6)
+		}
+		for _, form := range forms {
 			sk := formSkeleton(form)
 			if len(sk) == 2 && sk[0] == " " && sk[1] == "\x00" {
 				// the whole attribute text is produced elsewhere (a call result, a parameter): its form is not visible here
@@ -1177,20 +1143,12 @@ func mapEncoderAnalysis(p *Prog, r *Report, rule string) *tagAnalysis {
 	}
 	a.domain = jsonDomain
 	a.stateNames = tsNames
-	a.writeOp = func(cm *ssa.CallCommon) (ssa.Value, bool, bool) {
-		if isCallTo(cm, "(*bytes.Buffer).WriteString", "(*bytes.Buffer).Write") && a.isBufVal(cm.Args[0]) {
-			return cm.Args[1], isCallTo(cm, "(*bytes.Buffer).Write"), true
-		}
-		return nil, false, false
-	}
-	a.wrapperWrite = "(*bytes.Buffer).WriteString"
-	a.onWrite = func(t *tagTuple, v ssa.Value, raw bool, pos token.Pos) {
-		parts := a.opParts(*t, v)
+	a.onWrite = func(t *tagTuple, parts []ssa.Value, whole ssa.Value, raw bool, pos token.Pos) {
 		ev := a.classify(parts)
 		if raw {
 			ev = "text"
 		}
-		a.shape(ev, parts, v, pos)
+		a.shape(ev, parts, whole, pos)
 		a.apply(t, ev, pos)
 	}
 	a.onRecurse = func(t *tagTuple, pos token.Pos) { a.apply(t, "recurse", pos) }
@@ -1244,15 +1202,142 @@ func (a *tagAnalysis) emptyOnEdge(t tagTuple, cond ssa.Value, taken bool) bool {
 }
 
 // write: one buffer write on a path.
-func (a *tagAnalysis) write(t *tagTuple, op ssa.Value, raw bool, pos token.Pos) {
-	if a.src != nil && a.isDer(*t, op, 0) {
-		t.vals["$wrote"] = "T"
+func (a *tagAnalysis) write(t *tagTuple, ops []ssa.Value, raw bool, pos token.Pos) {
+	var parts []ssa.Value
+	for _, op := range ops {
+		if a.src != nil && a.isDer(*t, op, 0) {
+			t.vals["$wrote"] = "T"
+		}
+		parts = append(parts, a.opParts(*t, op)...)
+	}
+	if len(parts) == 0 {
+		return
+	}
+	var whole ssa.Value
+	if len(ops) == 1 {
+		whole = ops[0]
 	}
 	was := a.isDone != nil && a.isDone(t.t)
-	a.onWrite(t, op, raw, pos)
+	a.onWrite(t, parts, whole, raw, pos)
 	if a.isDone != nil && !was && a.isDone(t.t) {
 		a.checkContentWritten(*t, pos)
 	}
+}
+
+// writeOperands recognises the ways of putting text into the output buffer / builder: WriteString, Write, WriteByte, WriteRune on
+// it, io.WriteString and fmt.Fprint / Fprintf / Fprintln with it as the writer. It returns the operands whose concatenation is
+// written (constants of a format string become constant operands); raw means the bytes are not markup the protocol knows.
+func (a *tagAnalysis) writeOperands(cm *ssa.CallCommon) ([]ssa.Value, bool, bool) {
+	if cm.IsInvoke() || len(cm.Args) == 0 {
+		return nil, false, false
+	}
+	asBuf := func(v ssa.Value) bool {
+		for {
+			switch x := v.(type) {
+			case *ssa.MakeInterface:
+				v = x.X
+				continue
+			case *ssa.ChangeInterface:
+				v = x.X
+				continue
+			}
+			break
+		}
+		return a.isBufVal(v)
+	}
+	strConst := func(s string) ssa.Value { return ssa.NewConst(constant.MakeString(s), types.Typ[types.String]) }
+	switch {
+	case isCallTo(cm, "(*bytes.Buffer).WriteString", "(*strings.Builder).WriteString"):
+		if a.isBufVal(cm.Args[0]) {
+			return []ssa.Value{cm.Args[1]}, false, true
+		}
+	case isCallTo(cm, "(*bytes.Buffer).Write", "(*strings.Builder).Write"):
+		if a.isBufVal(cm.Args[0]) {
+			return []ssa.Value{cm.Args[1]}, true, true
+		}
+	case isCallTo(cm, "(*bytes.Buffer).WriteByte", "(*strings.Builder).WriteByte", "(*bytes.Buffer).WriteRune", "(*strings.Builder).WriteRune"):
+		if a.isBufVal(cm.Args[0]) {
+			if k, ok := constInt(cm.Args[1]); ok {
+				return []ssa.Value{strConst(string(rune(k)))}, false, true
+			}
+			return []ssa.Value{cm.Args[1]}, true, true
+		}
+	case isCallTo(cm, "io.WriteString"):
+		if asBuf(cm.Args[0]) {
+			return []ssa.Value{cm.Args[1]}, false, true
+		}
+	case isCallTo(cm, "fmt.Fprint", "fmt.Fprintln", "fmt.Fprintf"):
+		if !asBuf(cm.Args[0]) {
+			return nil, false, false
+		}
+		var args []ssa.Value
+		if sl, ok := cm.Args[len(cm.Args)-1].(*ssa.Slice); ok {
+			if al, ok := sl.X.(*ssa.Alloc); ok {
+				byIdx := map[int64]ssa.Value{}
+				for _, ref := range *al.Referrers() {
+					if ia, ok := ref.(*ssa.IndexAddr); ok {
+						if k, isK := constInt(ia.Index); isK {
+							for _, r2 := range *ia.Referrers() {
+								if st, ok := r2.(*ssa.Store); ok && st.Addr == ssa.Value(ia) {
+									v := st.Val
+									if mi, ok := v.(*ssa.MakeInterface); ok && isStringType(mi.X.Type()) {
+										v = mi.X
+									}
+									byIdx[k] = v
+								}
+							}
+						}
+					}
+				}
+				for i := int64(0); i < int64(len(byIdx)); i++ {
+					args = append(args, byIdx[i])
+				}
+			}
+		}
+		if isCallTo(cm, "fmt.Fprintf") {
+			format, ok := constString(cm.Args[1])
+			if !ok {
+				return nil, true, true
+			}
+			var out []ssa.Value
+			ai := 0
+			lit := ""
+			for i := 0; i < len(format); i++ {
+				if format[i] != '%' || i+1 >= len(format) {
+					lit += string(format[i])
+					continue
+				}
+				i++
+				if format[i] == '%' {
+					lit += "%"
+					continue
+				}
+				if lit != "" {
+					out = append(out, strConst(lit))
+					lit = ""
+				}
+				if ai < len(args) && args[ai] != nil {
+					out = append(out, args[ai])
+				}
+				ai++
+			}
+			if lit != "" {
+				out = append(out, strConst(lit))
+			}
+			return out, false, true
+		}
+		var out []ssa.Value
+		for _, v := range args {
+			if v != nil {
+				out = append(out, v)
+			}
+		}
+		if isCallTo(cm, "fmt.Fprintln") {
+			out = append(out, strConst("\n"))
+		}
+		return out, false, true
+	}
+	return nil, false, false
 }
 
 // infoOf: per-function facts that do not depend on the path.
@@ -1331,7 +1416,7 @@ func (a *tagAnalysis) infoOf(fn *ssa.Function) *fnInfo {
 	eachInstr(fn, func(b *ssa.BasicBlock, in ssa.Instruction) {
 		if ci, ok := in.(ssa.CallInstruction); ok {
 			cm := ci.Common()
-			if isCallTo(cm, "(*bytes.Buffer).WriteString", "(*strings.Builder).WriteString") && len(cm.Args) == 2 {
+			if isCallTo(cm, "(*bytes.Buffer).WriteString", "(*strings.Builder).WriteString", "io.WriteString") && len(cm.Args) == 2 {
 				rec(cm.Args[1])
 			} else if g := staticCallee(cm); g != nil && a.p.InModule(g) {
 				for _, arg := range cm.Args {
@@ -1553,8 +1638,8 @@ func (a *tagAnalysis) explore(fc *frame, start tagTuple) ([]exitT, bool) {
 						continue
 					}
 					cm := x.Common()
-					if op, raw, ok := a.writeOp(cm); ok {
-						a.write(&t, op, raw, ins.Pos())
+					if ops, raw, ok := a.writeOperands(cm); ok {
+						a.write(&t, ops, raw, ins.Pos())
 					} else if g := staticCallee(cm); g == a.rootFn {
 						a.onRecurse(&t, ins.Pos())
 					} else if a.involved(t, cm) {
@@ -2079,9 +2164,9 @@ func lexConst(s string) []string {
 }
 
 // seqEvents: the token events of one written operand.
-func (a *tagAnalysis) seqEvents(t tagTuple, v ssa.Value) []string {
+func (a *tagAnalysis) seqEvents(parts []ssa.Value) []string {
 	var out []string
-	for _, part := range a.opParts(t, v) {
+	for _, part := range parts {
 		if s, ok := constString(part); ok {
 			out = append(out, lexConst(s)...)
 			continue
@@ -2229,13 +2314,6 @@ func seqEncoderAnalysis(p *Prog, r *Report, rule string) *tagAnalysis {
 	}
 	a.domain = seqDomain
 	a.stateNames = sqNames
-	a.writeOp = func(cm *ssa.CallCommon) (ssa.Value, bool, bool) {
-		if isCallTo(cm, "(*strings.Builder).WriteString") && a.isBufVal(cm.Args[0]) {
-			return cm.Args[1], false, true
-		}
-		return nil, false, false
-	}
-	a.wrapperWrite = "(*strings.Builder).WriteString"
 	// decoder convention (the domain of C04): a comment, directive or processing-instruction key carries a map (or a list of maps), never a scalar
 	special := []string{}
 	for _, g := range []string{"commentK", "directiveK", "procinstK"} {
@@ -2278,8 +2356,11 @@ func seqEncoderAnalysis(p *Prog, r *Report, rule string) *tagAnalysis {
 		}
 		t.t = n
 	}
-	a.onWrite = func(t *tagTuple, v ssa.Value, raw bool, pos token.Pos) {
-		evs := a.seqEvents(*t, v)
+	a.onWrite = func(t *tagTuple, parts []ssa.Value, whole ssa.Value, raw bool, pos token.Pos) {
+		evs := a.seqEvents(parts)
+		if raw {
+			evs = []string{"TEXT"}
+		}
 		for _, ev := range evs {
 			if ev != "TEXT" && ev != "WS" {
 				a.shapeSites[pos] = true
